@@ -279,6 +279,12 @@ class ExpandedTraceback:
         return formatter.traceback(traceback_message)
 
     def format_line(self, formatter, frame):
+        if frame.colno is None or frame.end_colno is None:
+            # No column information (e.g., python -X no_debug_ranges): show the line without a focus
+            line = getattr(frame, '_line', None) if not IS_AT_LEAST_PYTHON_313 else frame.line
+            if line is None:
+                line = frame.line
+            return formatter.python_code(line if line is not None else '')
         if IS_AT_LEAST_PYTHON_313:
             # Renamed _line to _lines in 3.13
             # https://github.com/python/cpython/commit/939fc6d6eab9b7ea8c244d513610dbdd556503a7
